@@ -89,7 +89,26 @@ class FileSystemLoader(BaseLoader):
         return TemplateSource(
             source,
             str(source_path),
-            partial(self._uptodate, source_path, mtime),
+            partial(self._still_first, template_name, source_path, mtime),
+        )
+
+    def _still_first(self, template_name: str, source_path: Path, mtime: float) -> bool:
+        """Return `False` if the file has changed or another file now shadows it."""
+        try:
+            if len(self.search_path) > 1 and (
+                self.resolve_path(template_name) != source_path
+            ):
+                # A file added to an earlier search path takes priority.
+                return False
+        except TemplateNotFoundError:
+            return False
+        return self._uptodate(source_path, mtime)
+
+    async def _still_first_async(
+        self, template_name: str, source_path: Path, mtime: float
+    ) -> bool:
+        return await asyncio.get_running_loop().run_in_executor(
+            None, self._still_first, template_name, source_path, mtime
         )
 
     @staticmethod
@@ -119,5 +138,7 @@ class FileSystemLoader(BaseLoader):
         source_path = await loop.run_in_executor(None, self.resolve_path, template_name)
         source, mtime = await loop.run_in_executor(None, self._read, source_path)
         return TemplateSource(
-            source, str(source_path), partial(self._uptodate_async, source_path, mtime)
+            source,
+            str(source_path),
+            partial(self._still_first_async, template_name, source_path, mtime),
         )
